@@ -441,3 +441,144 @@ func CheckpointRun(m *MultiBucket, writers, opsEach, keys, restarts int, r *rng.
 	}
 	return res, "", nil
 }
+
+// ---------------------------------------------------------------- checkpointed feed over several collections (C15)
+
+type MultiCheckpointResult struct {
+	Runs        int                 `json:"runs"`
+	Written     int                 `json:"written"`
+	Delivered   int                 `json:"delivered"`
+	Checkpoints map[string][]uint64 `json:"checkpointsByCollection"`
+}
+
+// MultiCheckpointRun: one bucket-level feed (Scopes naming two collections, one ID, one checkpoint prefix, resume
+// mode) is run, stopped after a PRNG-chosen number of callbacks and resumed several times while documents are
+// written to both collections between the runs; a final Dump run catches up. Each collection's stream must pick
+// up where that collection's stream stopped: every document's final version is delivered by some run, and a
+// collection's checkpoint never exceeds what was delivered for that collection.
+func MultiCheckpointRun(m *MultiBucket, rounds int, r *rng.R) (MultiCheckpointResult, string, map[string]any) {
+	res := MultiCheckpointResult{Checkpoints: map[string][]uint64{}}
+	const prefix, id = "mcp", "feedm"
+	cpKey := prefix + ":" + id
+	ncoll := len(m.CollsBy[0])
+	idOf := map[uint32]int{}
+	scopes := map[string][]string{}
+	for ci := 0; ci < ncoll; ci++ {
+		idOf[m.CollsBy[0][ci].GetCollectionID()] = ci
+		n := feedCollNames[ci]
+		scopes[n.Scope] = append(scopes[n.Scope], n.Collection)
+	}
+	delivered := map[string]bool{}
+	maxDelivered := make([]uint64, ncoll)
+	type doc struct {
+		ci  int
+		key string
+	}
+	var docs []doc
+	runFeed := func(dump bool, stopAfter int) string {
+		f := NewFeedLog(id, 0, 0)
+		park := make(chan struct{}, 1<<16)
+		f.Park = park
+		args := sgbucket.FeedArguments{ID: id, Backfill: sgbucket.FeedResume, CheckpointPrefix: prefix, Dump: dump, Terminator: f.Term, DoneChan: f.Done, Scopes: scopes}
+		h := res.Runs % len(m.Handles)
+		if err := m.Handles[h].StartDCPFeed(context.Background(), args, f.Callback, nil); err != nil {
+			return "setup|Bucket.StartDCPFeed(resume, two collections) failed: " + err.Error()
+		}
+		res.Runs++
+		feedAll := func() {
+			for {
+				select {
+				case park <- struct{}{}:
+				case <-f.Done:
+					return
+				}
+			}
+		}
+		if dump {
+			go feedAll()
+			select {
+			case <-f.Done:
+			case <-time.After(30 * time.Second):
+				return "hang|the final dump run over two collections did not finish within 30s"
+			}
+		} else {
+			for i := 0; i < stopAfter; i++ {
+				park <- struct{}{}
+			}
+			deadline := time.Now().Add(300 * time.Millisecond)
+			for f.Len() < stopAfter && time.Now().Before(deadline) {
+				time.Sleep(200 * time.Microsecond)
+			}
+			close(f.Term)
+			go feedAll()
+			select {
+			case <-f.Done:
+			case <-time.After(20 * time.Second):
+				return "hang|the two-collection feed did not stop within 20s of its terminator closing"
+			}
+		}
+		for _, e := range f.Snapshot() {
+			if e.Op == uint8(sgbucket.FeedOpBeginBackfill) || e.Op == uint8(sgbucket.FeedOpEndBackfill) {
+				continue
+			}
+			ci, ok := idOf[e.Coll]
+			if !ok {
+				return fmt.Sprintf("collection|an event for key %s carries collection id %d, which is none of the feed's collections", e.Key, e.Coll)
+			}
+			delivered[fmt.Sprintf("%d/%s/%d", ci, e.Key, e.Cas)] = true
+			res.Delivered++
+			if e.Cas > maxDelivered[ci] {
+				maxDelivered[ci] = e.Cas
+			}
+		}
+		for ci := 0; ci < ncoll; ci++ {
+			raw, _, err := m.CollsBy[0][ci].GetRaw(cpKey)
+			if err != nil {
+				continue
+			}
+			var cp cpDoc
+			if json.Unmarshal(raw, &cp) == nil {
+				name := feedCollNames[ci].Scope + "." + feedCollNames[ci].Collection
+				res.Checkpoints[name] = append(res.Checkpoints[name], cp.LastSeq)
+				if cp.LastSeq > maxDelivered[ci] {
+					return fmt.Sprintf("checkpoint|after run %d the checkpoint of collection %s says last_seq=%d, but the highest CAS the feed ever delivered for that collection is %d", res.Runs, name, cp.LastSeq, maxDelivered[ci])
+				}
+			}
+		}
+		return ""
+	}
+	for round := 0; round < rounds; round++ {
+		n := 0
+		for ci := 0; ci < ncoll; ci++ {
+			k := 1 + r.Intn(4)
+			for j := 0; j < k; j++ {
+				d := doc{ci, fmt.Sprintf("m%d_%d_%d", round, ci, j)}
+				// (the collections are written in turn, so that their CAS ranges interleave)
+				if err := m.CollsBy[round%len(m.Handles)][ci].Set(d.key, 0, nil, []byte(fmt.Sprintf(`{"r":%d}`, round))); err != nil {
+					return res, "setup|write failed: " + err.Error(), nil
+				}
+				docs = append(docs, d)
+				n++
+			}
+		}
+		res.Written += n
+		if msg := runFeed(false, r.Intn(n+2)); msg != "" {
+			return res, msg, map[string]any{"result": res}
+		}
+	}
+	if msg := runFeed(true, 0); msg != "" {
+		return res, msg, map[string]any{"result": res}
+	}
+	for _, d := range docs {
+		_, cas, err := m.CollsBy[0][d.ci].GetRaw(d.key)
+		if err != nil {
+			continue
+		}
+		if !delivered[fmt.Sprintf("%d/%s/%d", d.ci, d.key, cas)] {
+			name := feedCollNames[d.ci].Scope + "." + feedCollNames[d.ci].Collection
+			return res, fmt.Sprintf("skipped|document %s of collection %s (CAS %d) was delivered by no run of the checkpointed two-collection feed (checkpoints %v)", d.key, name, cas, res.Checkpoints),
+				map[string]any{"result": res, "key": d.key, "collection": name}
+		}
+	}
+	return res, "", nil
+}
